@@ -18,6 +18,7 @@ RULE = ("histories of 1..10 (thorough ..30) operations on one frame: constructor
 
 UNIVERSE = ["x", "y", "z", "a b", "items", "filter", "nrow", "_q", "1a", "w"]
 TRANSFORMS = ["filter", "filter_out", "head", "tail", "sort", "unique", "rbind", "cbind", "select", "unselect", "rename", "modify", "update", "drop_na", "slice", "copy", "deepcopy", "sample",
+              "cbind_long", "update_long", "slice_cols:rev", "slice_cols:neg", "slice_cols:out",
               "modify_grouped:scalar", "modify_grouped:one", "modify_grouped:group", "modify_grouped:two", "modify_grouped:nrow", "modify_grouped:plus1"]
 
 
@@ -131,6 +132,7 @@ def value_of(shape, name=None, df=None):
 
 
 GROUPED_BAD = [False]
+SLICE_EXPECT = [None]      # the column names slice(cols=...) must return, in that order, or "reject"
 
 
 def grouped_result(kind, x, total):
@@ -180,6 +182,16 @@ def transform(df, m):
         return df.rbind(df)
     if m == "cbind":
         return df.cbind(di.DataFrame(w=1), di.DataFrame(w=2, v=3)) if n else df.cbind(df)
+    if m == "cbind_long":
+        # an operand with two rows more than the receiver: nothing to broadcast, must be refused (also for a one-row receiver)
+        return df.cbind(di.DataFrame(wl=np.arange(n + 2)))
+    if m == "update_long":
+        return df.update(di.DataFrame(wl=np.arange(n + 2)))
+    if m.startswith("slice_cols:"):
+        k = df.ncol
+        cols = {"rev": list(range(k))[::-1], "neg": [-1] if k else [], "out": [0, k + 3]}[m.split(":")[1]]
+        SLICE_EXPECT[0] = ([df.colnames[i] for i in cols] if all(-k <= i < k for i in cols) else "reject")
+        return df.slice(cols=cols)
     if m == "select":
         return df.select(*df.colnames[:2])
     if m == "unselect":
@@ -269,12 +281,16 @@ def impl(case):
                 df.colnames = names
             elif k == "transform":
                 GROUPED_BAD[0] = False
+                SLICE_EXPECT[0] = None
+                rec["nrow_before"] = int(df.nrow) if df.ncol else None
                 try:
                     out = transform(df, st["m"])
                 finally:
                     if st["m"].startswith("modify_grouped:"):
                         df._group_colnames = ()
                 rec["grouped_bad"] = GROUPED_BAD[0]
+                rec["slice_expect"] = SLICE_EXPECT[0]
+                rec["names_after"] = list(dict.keys(out))
                 if not isinstance(out, di.DataFrame):
                     raise TypeError("transform did not return a DataFrame")
                 df = out
@@ -304,8 +320,8 @@ def model_requests(case, obs):
             ops.append({"k": "colnames", "names": rec.get("names", [])})
         elif k == "transform":
             ops.append({"k": "rebuild", "pairs": rec["pairs"] if "pairs" in rec else [["__reject__", "nd"]]})
-    return [("fs_run", {"ident": [u for u in UNIVERSE + ["p", "q", "r", "s", "t", "u", "v2", "renamed", "B", "v", "zg"] if u.isidentifier()],
-                        "classAttr": [u for u in UNIVERSE + ["p", "q", "r", "s", "t", "u", "v2", "renamed", "B", "v", "zg"] if u in cls],
+    return [("fs_run", {"ident": [u for u in UNIVERSE + ["p", "q", "r", "s", "t", "u", "v2", "renamed", "B", "v", "zg", "wl"] if u.isidentifier()],
+                        "classAttr": [u for u in UNIVERSE + ["p", "q", "r", "s", "t", "u", "v2", "renamed", "B", "v", "zg", "wl"] if u in cls],
                         "universe": UNIVERSE, "init": case["init"], "ops": ops})]
 
 
@@ -361,6 +377,16 @@ def judge(ctx, case, obs, mouts):
         o = rec["obs"]
         check_state(ctx, sub, o, f"after step {idx} ({st['k']})")
         names = [c[0] for c in o["cols"]]
+        if st["k"] == "transform" and rec["ok"]:
+            mm = st["m"]
+            if mm in ("cbind_long", "update_long") and rec.get("nrow_before") is not None:
+                ctx.violation("oracle", f"{mm.split('_')[0]}:stores-mismatch",
+                              f"{mm}: an operand with {rec['nrow_before'] + 2} rows was accepted by a receiver with {rec['nrow_before']} rows (result lengths {rec.get('pairs')})", sub, rec)
+            if mm.startswith("slice_cols:") and rec.get("slice_expect") is not None:
+                if rec["slice_expect"] == "reject":
+                    ctx.violation("oracle", "slice:cols-out-of-range-accepted", f"slice(cols=...) with a position beyond the columns returned {rec.get('names_after')}", sub, rec)
+                elif rec.get("names_after") != rec["slice_expect"]:
+                    ctx.violation("oracle", "slice:cols-order", f"slice(cols=...) returned the columns {rec.get('names_after')}, requested by position: {rec['slice_expect']}", sub, rec)
         if rec["ok"] and rec.get("grouped_bad"):
             ctx.violation("oracle", "modify_grouped:stores-mismatch", "a group-wise modify stored a result whose length is neither 1 nor the size of its group", sub, rec)
         if rec["ok"]:
